@@ -257,14 +257,19 @@ func unmanageHAProxyEndpointsVoided(haproxyEndpointsToRemove []*HAProxyEndpointD
 
 func (txnPoliciesAccessor *TxnPoliciesAccessor) GetCurrentPoliciesData() *PoliciesData {
 	txnPoliciesAccessor.mutex.RLock()
-	value, found := txnPoliciesAccessor.policiesVersions[txnPoliciesAccessor.currentVersion]
+	currentVersion := txnPoliciesAccessor.currentVersion
+	value, found := txnPoliciesAccessor.policiesVersions[currentVersion]
+	var availableVersions []PoliciesVersion
+	if !found {
+		availableVersions = lo.Keys(txnPoliciesAccessor.policiesVersions)
+	}
 	txnPoliciesAccessor.mutex.RUnlock()
 	if !found {
 		log.Error().
 			Msgf("Could not find current version (%d) in map, "+
 				"available versions: %+v, will return empty data",
-				txnPoliciesAccessor.currentVersion,
-				lo.Keys(txnPoliciesAccessor.policiesVersions))
+				currentVersion,
+				availableVersions)
 		return &PoliciesData{} //nolint:exhaustruct
 	}
 	return value
